@@ -27,7 +27,7 @@ type Env struct {
 	old  *State
 	pkg  *types.Package
 	// lookup of local program variables by name (loop invariants, sites)
-	local func(name string) (Val, bool)
+	local func(name string, st *State) (Val, bool)
 	// results of the calls the function makes, by site selector
 	res func(key string, i int) (Val, bool)
 }
@@ -212,7 +212,7 @@ func (e *Env) ident(name string) Val {
 		return Val{isNil: true, T: T("Nil", "nil")}
 	}
 	if e.local != nil {
-		if v, ok := e.local(name); ok {
+		if v, ok := e.local(name, e.st); ok {
 			return v
 		}
 	}
@@ -427,7 +427,7 @@ func (e *Env) selector(x *ESel) Val {
 		if _, isVar := e.vars[id.Name]; !isVar {
 			isLocal := false
 			if e.local != nil {
-				_, isLocal = e.local(id.Name)
+				_, isLocal = e.local(id.Name, e.st)
 			}
 			if !isLocal {
 				for _, imp := range e.pkg.Imports() {
